@@ -275,7 +275,7 @@ pub fn h_records() {
 pub struct Faulty<'a> {
     pub data: &'a [u8],
     pub pos: usize,
-    pub calls: usize,
+    pub calls: &'a std::cell::Cell<usize>,
     pub fail_at: usize,
     pub chunk: usize,
 }
@@ -293,8 +293,8 @@ impl<'a> Read for Faulty<'a> {
 }
 impl<'a> BufRead for Faulty<'a> {
     fn fill_buf(&mut self) -> io::Result<&[u8]> {
-        self.calls += 1;
-        if self.calls == self.fail_at {
+        self.calls.set(self.calls.get() + 1);
+        if self.calls.get() == self.fail_at {
             return Err(io::Error::new(io::ErrorKind::Other, "injected"));
         }
         let end = if self.pos + self.chunk < self.data.len() { self.pos + self.chunk } else { self.data.len() };
@@ -309,11 +309,11 @@ pub fn h_io_error() {
     let text = b"PKGNAME=a-1\nCATEGORIES=x\nPKGNAME=b-2\nMAINTAINER=m\n";
     let chunk = 1 + sym::choose("chunk", 13);
     let fail_at = 1 + sym::choose("fail_at", 14);
-    let r = Faulty { data: text, pos: 0, calls: 0, fail_at, chunk: chunk * 4 };
+    let calls = std::cell::Cell::new(0);
+    let r = Faulty { data: text, pos: 0, calls: &calls, fail_at, chunk: chunk * 4 };
     let got = ScanIndex::from_reader(r);
-    // number of fill_buf calls a complete read needs: one per chunk plus the final empty one
-    let chunks = (text.len() + chunk * 4 - 1) / (chunk * 4);
-    let reached = fail_at <= chunks + 1;
+    // the injected error was reached iff the reader was asked at least fail_at times
+    let reached = calls.get() >= fail_at;
     sym::cover("error-injected", reached);
     sym::cover("no-error", !reached);
     if reached {
